@@ -142,13 +142,19 @@ class TaskFactory:
         """
         task_handle = TaskHandle(name=name or callable_name(func))
         self._tasks.add(task_handle)
-        task_handle.start_value = await self._task_group.start(
-            self._run_background_task,
-            func,
-            task_handle,
-            self.exception_handler,
-            name=task_handle.name,
-        )
+        try:
+            task_handle.start_value = await self._task_group.start(
+                self._run_background_task,
+                func,
+                task_handle,
+                self.exception_handler,
+                name=task_handle.name,
+            )
+        except BaseException:
+            # The task could not be started, so it must not be listed as running
+            self._tasks.discard(task_handle)
+            raise
+
         return task_handle
 
     def start_task_soon(
@@ -170,13 +176,19 @@ class TaskFactory:
         """
         task_handle = TaskHandle(name=name or callable_name(func))
         self._tasks.add(task_handle)
-        self._task_group.start_soon(
-            self._run_background_task,
-            func,
-            task_handle,
-            self.exception_handler,
-            name=task_handle.name,
-        )
+        try:
+            self._task_group.start_soon(
+                self._run_background_task,
+                func,
+                task_handle,
+                self.exception_handler,
+                name=task_handle.name,
+            )
+        except BaseException:
+            # The task could not be started, so it must not be listed as running
+            self._tasks.discard(task_handle)
+            raise
+
         return task_handle
 
     async def _run_background_task(
@@ -193,7 +205,7 @@ class TaskFactory:
                 func, self._ctx, task_handle, exception_handler, task_status=task_status
             )
         finally:
-            self._tasks.remove(task_handle)
+            self._tasks.discard(task_handle)
 
     async def _run(self, *, task_status: TaskStatus[None]) -> None:
         from ._context import current_context
